@@ -109,7 +109,7 @@ func c13bigCases(g *G) []c13big {
 		out = append(out, c13big{"long-unique-" + strconv.Itoa(n), l, r, []int{3}, 1})
 	}
 	// (5) single lines longer than the readers' buffer (4096 bytes), as changed lines and as context
-	lens := []int{4095, 4096, 4097, lbKiB64 + 1}
+	lens := []int{lbKiB64 + 1, 4095, 4096, 4097} // (the two most expensive pairs, 2000 lines and 64 KiB lines, go to different shards)
 	if g.Thorough() {
 		lens = append(lens, 8191, 8192, 8193, lbKiB64-1, lbKiB64)
 	}
@@ -151,5 +151,9 @@ func c14bigOps(g *G, b c13big, kind string) []string {
 	for _, n := range b.ctx[1:] {
 		calls = append(calls, kind+" "+strconv.Itoa(n))
 	}
-	return append(ops, calls[:min(len(calls), b.calls)]...)
+	n := min(len(calls), b.calls)
+	if kind == "u" && !g.Thorough() {
+		n = min(n, 2) // a unified line is rendered, read back, re-rendered and wrapped into a two-file git patch
+	}
+	return append(ops, calls[:n]...)
 }
